@@ -123,6 +123,14 @@ def requests(tier, named=True):
             if len(R) >= 2:
                 out.append((spell(R, [i % 2 for i in range(len(R))]), list(R)))
                 out.append((spell(R, [(i + 1) % 2 for i in range(len(R))]), list(R)))
+    # the same channel named more than once in a request is converted once
+    for j in range(4):
+        k = (j + 1) % 4
+        out.append(([j, j], [j, j]))
+        out.append(([j, k, j], [j, k, j]))
+        if named:
+            out.append(([NAMES[j], j], [j, j]))
+            out.append(([NAMES[j], NAMES[k], NAMES[j], k], [j, k, j, k]))
     return out
 
 
